@@ -88,27 +88,34 @@ class Annotator:
                 out.append(["assign", s[1], a])
             elif k == "if":
                 saved = dict(self.types)
-                brs = []
+                brs, new = [], {}
                 for c, b in s[1]:
                     ca = self.ann(c)
                     self.types = dict(saved)
                     brs.append([ca, self.stmts(b)])
+                    new.update({n: t for n, t in self.types.items() if n not in saved and n not in new})
                 self.types = dict(saved)
                 els = self.stmts(s[2])
+                new.update({n: t for n, t in self.types.items() if n not in saved and n not in new})
                 self.types = dict(saved)
+                self.types.update(new)          # names first assigned in a branch stay known (hoisted by the parser)
                 out.append(["if", brs, els])
             elif k == "while":
                 ca = self.ann(s[1])
                 saved = dict(self.types)
                 b = self.stmts(s[2])
+                new = {n: t for n, t in self.types.items() if n not in saved}
                 self.types = saved
+                self.types.update(new)
                 out.append(["while", ca, b])
             elif k == "for":
                 ca = self.ann(s[2])
                 saved = dict(self.types)
                 self.types[s[1]] = "int"
                 b = self.stmts(s[3])
+                new = {n: t for n, t in self.types.items() if n not in saved and n != s[1]}
                 self.types = saved
+                self.types.update(new)
                 out.append(["for", s[1], ca, b])
             elif k == "break":
                 out.append(["break"])
@@ -213,12 +220,17 @@ def folded(src, ctext):
     return ctext
 
 
+DEFAULTS = ("0", "0.0", "false", '""', "0.0f")
+
+
 def canon_promoted(nodes):
-    """runs of consecutive default-initialised local declarations (hoisted names) are compared as
-    sorted runs: their relative order is set-iteration order in the real parser (property C10)"""
+    """runs of consecutive default-initialised local declarations (hoisted names), or of assignments of a
+    default literal (hoisted declarations rewritten by an outer hoisting), are compared as sorted runs: their
+    relative order is set-iteration order in the real parser (property C10) and they commute"""
     out, run = [], []
     for n in nodes:
-        if n[0] == "decl" and n[4] is False and n[3] in ("0", "0.0", "false", '""', "0.0f"):
+        if (n[0] == "decl" and n[4] is False and n[3] in DEFAULTS) or (n[0] == "assign" and n[2] in DEFAULTS):
+            # hoisted declarations, and hoisted declarations that an outer hoisting rewrote to `x = <default>;`
             run.append(n)
             continue
         if run:
